@@ -4,13 +4,14 @@ use crate::steps::*;
 use customasm::util::BigInt;
 use customasm::*;
 
-step! {
+step! { int;
     #[kani::unwind(2)]
     fn c01_b_data_element_final() {
         // final pass, unsized value: accept <=> -2^(N-1) <= v < 2^N, stored = low N bits
         let n: usize = kani::any(); kani::assume(n >= 1 && n <= 12);
         let v: i16 = kani::any();
         let prev: i16 = kani::any(); kani::assume(prev >= 0 && (prev as i64) < (1i64 << n));
+        pre_int(v as i64, None);
         let (res, _, _) = data_element_step(n, v as i64, None, 0, false, true, false, true, prev as i64);
         kani::cover!(res && v < 0, "negative value stored unchanged on the final pass");
         kani::cover!(res && v > 0 && (v as i64) == (1i64 << n) - 1, "largest unsigned value stored");
